@@ -96,7 +96,11 @@ def gen_typed(rng, max_ctx=3):
                 if bare and m == "qartod" and rng.random() < 0.6 and "climatology_test" not in tests:
                     tests[rng.randrange(len(tests))] = "climatology_test"      # a parameter that is a list of mappings
                 if rng.random() < 0.25:
-                    tests.insert(rng.randrange(len(tests) + 1), rng.choice(UNKNOWN_TESTS))
+                    # a name no module has, or (as often) a test written under the WRONG module: real elsewhere, unknown here
+                    elsewhere = [t for mm, ts in REAL.items() if mm != m for t in ts if t not in REAL.get(m, [])]
+                    pick = rng.choice(UNKNOWN_TESTS) if rng.random() < 0.5 or not elsewhere else rng.choice(elsewhere)
+                    if pick not in tests:
+                        tests.insert(rng.randrange(len(tests) + 1), pick)
                 mods.append({"name": m, "tests": [{"name": t, "kwargs": params_for(rng, t)} for t in tests]})
             streams.append({"id": sid, "modules": mods})
         ctxs.append({"window": w, "region": region, "streams": streams})
